@@ -8,7 +8,7 @@ ALPHABET = NAMES + ["r", "q", "R1"]
 META = dict(
     bounds=dict(
         quick="networks over species {A,B,C1,Fe}: 2 species x 2 reactions with coefficients {0,1,12}; 2 species x 1 reaction "
-              "with {0,1,2,3,10}; 3 species x 1 reaction with {0,1,2,10}; 3 species x 2 reactions and 2 species x 3 reactions with {0,1}; rules {r,q,R1}; first "
+              "with {0,1,2,3,10}; 3 species x 1 reaction with {0,1,2,10}; 3 species x 2 reactions and 2 species x 3 reactions with {0,1}; three reactions on one species pair A->B(+C1) with coefficients 1..3 / 1..2; rules {r,q,R1}; first "
               "reaction under a caller-chosen id; molecule labels on/off; bipartite export with string and integer ids; "
               "rule suffix on; species graph for networks whose reactions all have both sides",
         thorough="3 species x 2 reactions with coefficients {0,1,2}; 4 species x 2 reactions with {0,1}; 3 species x 3 "
@@ -32,7 +32,7 @@ def rx_list(H):
                   for eid, e in H.edges.items())
 
 
-def h_views(E, ns, nr, coeffs, rules=("r", "q", "R1")):
+def h_views(E, ns, nr, coeffs, rules=("r", "q", "R1"), shared=False):
     from synkit.CRN.Hypergraph.hypergraph import CRNHyperGraph
     from synkit.CRN.Hypergraph import conversion as cv
 
@@ -40,8 +40,13 @@ def h_views(E, ns, nr, coeffs, rules=("r", "q", "R1")):
     H = CRNHyperGraph()
     both_sides = True
     for j in range(nr):
-        r = {s: int(E.choice("r%d%s" % (j, s), coeffs)) for s in sp}
-        p = {s: int(E.choice("p%d%s" % (j, s), coeffs)) for s in sp}
+        if shared:
+            # several reactions on one species pair A -> B (+ C1), coefficients symbolic
+            r = {"A": int(E.choice("r%dA" % j, [1, 2, 3]))}
+            p = {"B": int(E.choice("p%dB" % j, [1, 2])), "C1": int(E.choice("p%dC1" % j, [0, 1]))}
+        else:
+            r = {s: int(E.choice("r%d%s" % (j, s), coeffs)) for s in sp}
+            p = {s: int(E.choice("p%d%s" % (j, s), coeffs)) for s in sp}
         r = {k: v for k, v in r.items() if v}
         p = {k: v for k, v in p.items() if v}
         E.assume(bool(r) or bool(p))
@@ -96,6 +101,7 @@ def shards(tier, seed):
         dict(h="views", params=dict(ns=3, nr=1, coeffs=[0, 1, 2, 10], rules=["q"])),
         dict(h="views", params=dict(ns=3, nr=2, coeffs=[0, 1], rules=["r", "q"])),
         dict(h="views", params=dict(ns=2, nr=3, coeffs=[0, 1], rules=["r", "q"])),
+        dict(h="views", params=dict(ns=3, nr=3, coeffs=[], rules=["r"], shared=True)),
     ]
     if tier == "thorough":
         sh += [
